@@ -191,6 +191,47 @@ Proof.
     assert (L1 : length (arr s1) = length (arr s)) by (rewrite A1; apply down_go_length; lia).
     destruct (IH s1 I1 ltac:(lia)) as (s' & E' & A' & I'). rewrite L1 in E'. rewrite A1 in A'. exists s'. auto.
 Qed.
+(* the same with the fuel the operations pass (S len) and the fuel the pure definitions use *)
+Local Notation down := (Heap.down A d lt).
+Local Notation up := (Heap.up A d lt).
+Local Notation fix_ := (Heap.fix_ A d lt).
+Local Notation build := (Heap.build A d lt).
+Lemma gdown_ok s i n : Inv s -> n <= length (arr s) ->
+  exists s', gdown (Datatypes.S (length (arr s))) s (Z.of_nat i) (Z.of_nat n) = Ok (s', snd (down (arr s) i n)) /\
+             arr s' = fst (down (arr s) i n) /\ Inv s'.
+Proof.
+  intros HI Hn. unfold Heap.gdown.
+  destruct (gdown_go_ok (length (arr s)) s i n HI Hn ltac:(lia)) as (s' & E & A1 & I1).
+  rewrite E. cbn [bind fst snd]. unfold Heap.down.
+  rewrite (down_go_fuel_ge A d lt n (length (arr s)) (arr s) i n) in A1 |- * by lia.
+  destruct (down_go n (arr s) i n) as [s2 i2]. cbn [fst snd] in *. exists s'. split; [|auto]. f_equal. f_equal.
+  destruct (Nat.ltb_spec i i2); destruct (Z.gtb_spec (Z.of_nat i2) (Z.of_nat i)); auto; lia.
+Qed.
+Lemma gup_ok s j : Inv s -> j < length (arr s) ->
+  exists s', gup_go (Datatypes.S (length (arr s))) s (Z.of_nat j) = Ok s' /\ arr s' = up (arr s) j /\ Inv s'.
+Proof.
+  intros HI Hj. destruct (gup_go_ok (length (arr s)) s j HI Hj ltac:(lia)) as (s' & E & A1 & I1).
+  exists s'. split; [exact E|]. split; [|exact I1]. rewrite A1. unfold Heap.up.
+  rewrite (up_go_fuel_ge A d lt j (length (arr s))) by lia. rewrite (up_go_fuel_ge A d lt j (Datatypes.S j)) by lia. reflexivity.
+Qed.
+Lemma gfix_ok' s i n : Inv s -> n <= length (arr s) -> i < n ->
+  exists s', gfix (Datatypes.S (length (arr s))) s (Z.of_nat i) (Z.of_nat n) = Ok s' /\ arr s' = fix_ (arr s) i n /\ Inv s'.
+Proof.
+  intros HI Hn Hi. destruct (gfix_ok (length (arr s)) s i n HI Hn Hi ltac:(lia) ltac:(lia)) as (s' & E & A1 & I1).
+  exists s'. split; [exact E|]. split; [|exact I1]. rewrite A1. cbv zeta. unfold Heap.fix_, Heap.down, Heap.up.
+  rewrite (down_go_fuel_ge A d lt n (length (arr s)) (arr s) i n) by lia.
+  destruct (down_go n (arr s) i n) as [s2 i2]. cbn [fst snd].
+  destruct (i <? i2); [reflexivity|].
+  rewrite (up_go_fuel_ge A d lt i (length (arr s))) by lia. rewrite (up_go_fuel_ge A d lt i (Datatypes.S i)) by lia. reflexivity.
+Qed.
+Lemma gbuild_ok s : Inv s ->
+  exists s', Heap.gbuild S less swp (Datatypes.S (length (arr s))) s (Zlen (arr s)) = Ok s' /\ arr s' = build (arr s) /\ Inv s'.
+Proof.
+  intros HI. unfold Heap.gbuild, Heap.build, Zlen.
+  assert (E2 : Z.to_nat (Z.of_nat (length (arr s)) / 2) = length (arr s) / 2).
+  { change 2%Z with (Z.of_nat 2). rewrite <- Nat2Z.inj_div. apply Nat2Z.id. }
+  rewrite E2. apply gbuild_from_ok; auto. apply Nat.div_le_upper_bound; lia.
+Qed.
 End Bridge.
 
 (* ------------------------------------------------------------------ the plain slice *)
